@@ -56,6 +56,60 @@ Qed.
 Lemma strip_idem h : strip (strip h) = strip h.
 Proof. unfold strip. apply filter_idem_imp. auto. Qed.
 
+(** [assoc] after [hm_remove] *)
+Lemma assoc_remove n m h : assoc n (hm_remove m h) = if beq m n then None else assoc n h.
+Proof.
+  induction h as [|[k v] h IH]; cbn [hm_remove filter fst assoc].
+  - destruct (beq m n); reflexivity.
+  - fold (hm_remove m h). destruct (beq m k) eqn:Emk; cbn [negb].
+    + rewrite IH. destruct (beq m n) eqn:Emn; [reflexivity|].
+      destruct (beq n k) eqn:Enk; [|reflexivity].
+      apply beq_eq in Emk. apply beq_eq in Enk. subst. rewrite beq_refl in Emn. discriminate.
+    + cbn [assoc]. destruct (beq n k) eqn:Enk.
+      * destruct (beq m n) eqn:Emn; [|reflexivity].
+        apply beq_eq in Emn. apply beq_eq in Enk. subst. rewrite beq_refl in Emk. discriminate.
+      * exact IH.
+Qed.
+
+Lemma strip_remove_hop n h : hop n = true -> strip (hm_remove n h) = strip h.
+Proof. intros Hn. rewrite strip_remove. apply remove_hop_strip, Hn. Qed.
+
+Lemma strip_h2_strip h : strip (h2_strip h) = strip h.
+Proof.
+  unfold h2_strip.
+  set (h1 := hm_remove H_UPGRADE (hm_remove H_TENC (hm_remove H_PROXYC (hm_remove H_KA (hm_remove H_CONN h))))).
+  assert (E : strip h1 = strip h).
+  { unfold h1. rewrite !strip_remove_hop by reflexivity. reflexivity. }
+  destruct (assoc H_TE h1) as [v|]; [|exact E].
+  destruct (beq v V_TRAILERS); [exact E|]. rewrite strip_remove_hop by reflexivity. exact E.
+Qed.
+
+(** after [h2_strip] the h2 crate never refuses the head *)
+Lemma h2_strip_accepted h : h2_refuses (h2_strip h) = false.
+Proof.
+  unfold h2_strip.
+  set (h1 := hm_remove H_UPGRADE (hm_remove H_TENC (hm_remove H_PROXYC (hm_remove H_KA (hm_remove H_CONN h))))).
+  assert (A : forall n, (beq H_UPGRADE n || beq H_TENC n || beq H_PROXYC n || beq H_KA n || beq H_CONN n) = true ->
+                        assoc n h1 = None).
+  { intros n Hn. unfold h1. rewrite !assoc_remove.
+    destruct (beq H_UPGRADE n); [reflexivity|]. destruct (beq H_TENC n); [reflexivity|].
+    destruct (beq H_PROXYC n); [reflexivity|]. destruct (beq H_KA n); [reflexivity|].
+    destruct (beq H_CONN n); [reflexivity|]. discriminate. }
+  assert (R : forall h', (forall n, (beq H_UPGRADE n || beq H_TENC n || beq H_PROXYC n || beq H_KA n || beq H_CONN n) = true ->
+                                    assoc n h' = None) ->
+                         match assoc H_TE h' with Some v => negb (beq v V_TRAILERS) | None => false end = false ->
+                         h2_refuses h' = false).
+  { intros h' A' T. unfold h2_refuses, hm_has.
+    rewrite (A' H_CONN), (A' H_TENC), (A' H_UPGRADE), (A' H_KA), (A' H_PROXYC) by reflexivity. exact T. }
+  destruct (assoc H_TE h1) as [v|] eqn:T.
+  - destruct (beq v V_TRAILERS) eqn:Ev.
+    + apply R; [exact A|]. rewrite T, Ev. reflexivity.
+    + apply R.
+      * intros n Hn. rewrite assoc_remove. destruct (beq H_TE n); [reflexivity | exact (A n Hn)].
+      * rewrite assoc_remove, beq_refl. reflexivity.
+  - apply R; [exact A|]. rewrite T. reflexivity.
+Qed.
+
 Lemma hop_CL : hop H_CL = true. Proof. reflexivity. Qed.
 Lemma hop_CONN : hop H_CONN = true. Proof. reflexivity. Qed.
 Lemma hop_ALT : hop H_ALT = true. Proof. reflexivity. Qed.
@@ -122,7 +176,6 @@ Section Parity.
   Notation sendX := (send checked error_page pkg).
 
   Lemma send_parity secure1 alt m sd r :
-    sendX H2 true alt m sd r <> Ok WRefused ->
     onorm (sendX H1 secure1 alt m sd r) = onorm (sendX H2 true alt m sd r).
   Proof.
     unfold send.
@@ -130,14 +183,20 @@ Section Parity.
     destruct (apply_sd checked error_page sd (add_alt_svc secure1 alt r)) as [a|e|];
       destruct (apply_sd checked error_page sd (add_alt_svc true alt r)) as [c|e'|];
       cbn [oresp_eqv] in E; try contradiction; cbn [obind onorm]; [| subst; reflexivity | reflexivity].
-    destruct E as (Hv & Hs & Hh & Hb). intros Hnr.
+    destruct E as (Hv & Hs & Hh & Hb).
     rewrite Hb in *. rewrite Hs in *.
-    destruct (h2_refuses (pkg (ensure_version H2 (rs_version c))
-                 (ensure_length H2 (N.of_nat (length (rs_body c))) (rs_headers c)))) eqn:R.
-    - exfalso. apply Hnr. reflexivity.
-    - cbn [onorm normalise rs_status rs_headers rs_body]. f_equal. f_equal. f_equal.
-      rewrite strip_h1_connection. apply Hpkg.
-      rewrite !strip_ensure_length. exact Hh.
+    rewrite h2_strip_accepted.
+    cbn [onorm normalise rs_status rs_headers rs_body]. f_equal. f_equal. f_equal.
+    rewrite strip_h1_connection, strip_h2_strip. apply Hpkg.
+    rewrite !strip_ensure_length. exact Hh.
+  Qed.
+
+  (** the repaired HTTP/2 arm always gets its head past the h2 crate *)
+  Lemma send_never_refused p secure alt m sd r : sendX p secure alt m sd r <> Ok WRefused.
+  Proof.
+    unfold send. destruct (apply_sd checked error_page sd (add_alt_svc secure alt r)) as [a|e|]; cbn [obind];
+      try discriminate.
+    destruct p; [discriminate|]. rewrite h2_strip_accepted. discriminate.
   Qed.
 
   (** HEAD: the GET answer without the body, on either protocol *)
@@ -164,12 +223,11 @@ Section Parity.
   Proof. destruct o as [[r|]|e|]; reflexivity. Qed.
 
   Lemma head_parity_lemma secure1 alt sd r :
-    sendX H2 true alt M_GET sd r <> Ok WRefused ->
     onorm (sendX H1 secure1 alt M_HEAD sd r) = odrop (onorm (sendX H2 true alt M_GET sd r)) /\
     onorm (sendX H2 true alt M_HEAD sd r) = odrop (onorm (sendX H2 true alt M_GET sd r)).
   Proof.
-    intros Hnr. rewrite !send_head, !onorm_odrop. split; [|reflexivity].
-    rewrite (send_parity secure1 alt M_GET sd r Hnr). reflexivity.
+    rewrite !send_head, !onorm_odrop. split; [|reflexivity].
+    rewrite (send_parity secure1 alt M_GET sd r). reflexivity.
   Qed.
 
   (** the h2 crate sends the head whenever neither the handler's response nor a Package extension carries a
@@ -246,7 +304,6 @@ Section AnswerParity.
                               vary_header checked error_page pkg alt sanitize encode hversion).
 
   Lemma answer_parity secure1 st now r0 :
-    answerX H2 true st now r0 <> Ok WRefused ->
     onorm (answerX H1 secure1 st now r0) = onorm (answerX H2 true st now r0).
   Proof.
     unfold answer.
